@@ -46,6 +46,19 @@ def main():
                 if isinstance(e, (KeyboardInterrupt, SystemExit)):
                     raise
                 r = {"t": "HarnessError", "a": [traceback.format_exc()[-1500:]]}
+                # Safety net: an exception whose innermost frame lies inside the psutil under test was raised BY the
+                # implementation in a runner that forgot to wrap the call: that is an implementation outcome to be
+                # judged (the spec demanded something else), not a crash of the harness.
+                try:
+                    tb = e.__traceback__
+                    while tb is not None and tb.tb_next is not None:
+                        tb = tb.tb_next
+                    inner = os.path.realpath(tb.tb_frame.f_code.co_filename) if tb is not None else ""
+                    if want and inner.startswith(os.path.join(want, "psutil") + os.sep):
+                        from pv.canon import Exc, exc_name
+                        r = {"t": "EscapedFromPsutil", "a": [Exc(exc_name(e)), traceback.format_exc()[-800:]]}
+                except Exception:  # noqa: BLE001
+                    pass
             finally:
                 signal.setitimer(signal.ITIMER_VIRTUAL, 0)
                 signal.alarm(0)
